@@ -1297,12 +1297,15 @@ def rule_RG(run: Run) -> RuleResult:
     if fn is None:
         raise AnalysisError("Implementation.__init__ not found")
     ctx = Ctx(repo, unroll=2, max_paths=20000)
-    # the private module-level helpers __init__ hands its work to are judged on their own below
+    # the private module-level helpers __init__ hands its work to are judged on their own below (private: of the same module, named
+    # with an underscore, or living in a private module of the package — labrea/_members.py)
+    def _private_helper(fi_, here) -> bool:
+        return fi_.module is here or fi_.name.startswith("_") or fi_.module.name.split(".")[-1].startswith("_")
     helpers = []
     for c_ in astu.calls_in(fn):
         if isinstance(c_.func, ast.Name):
             r_ = repo.resolve_name(im.module, c_.func.id)
-            if r_ and r_[0] == "func" and (r_[1].module is im.module or r_[1].name.startswith("_")) and r_[1] not in helpers:
+            if r_ and r_[0] == "func" and _private_helper(r_[1], im.module) and r_[1] not in helpers:
                 helpers.append(r_[1])
     changed_ = True
     while changed_:
@@ -1311,7 +1314,7 @@ def rule_RG(run: Run) -> RuleResult:
             for c_ in astu.calls_in(h_.node):
                 if isinstance(c_.func, ast.Name):
                     r_ = repo.resolve_name(h_.module, c_.func.id)
-                    if r_ and r_[0] == "func" and (r_[1].module is h_.module or r_[1].name.startswith("_")) and r_[1] not in helpers:
+                    if r_ and r_[0] == "func" and _private_helper(r_[1], h_.module) and r_[1] not in helpers:
                         helpers.append(r_[1])
                         changed_ = True
     # helpers that (transitively) register are followed into; the others are calls that may raise when they hold a raise
